@@ -524,6 +524,27 @@ def expr_file_term(expr, parent_vars):
             f"{lin} {quad})")
 
 
+def cqm_header_len(cqm_bytes):
+    from dimod.serialization.fileview import read_header
+    f = io.BytesIO(cqm_bytes)
+    read_header(f, b'DIMODCQM')
+    return f.tell()
+
+
+def cut_member(cqm_bytes, member, k):
+    """the same CQM file with a VALID zip container in which `member` holds only its first k bytes"""
+    h = cqm_header_len(cqm_bytes)
+    out = io.BytesIO()
+    out.write(cqm_bytes[:h])
+    with zipfile.ZipFile(io.BytesIO(cqm_bytes)) as zin, zipfile.ZipFile(out, mode='a') as zout:
+        for info in zin.infolist():
+            data = zin.read(info.filename)
+            if info.filename == member:
+                data = data[:k]
+            zout.writestr(info.filename, data, compress_type=info.compress_type)
+    return out.getvalue()
+
+
 def zip_members(cqm_bytes):
     with zipfile.ZipFile(io.BytesIO(cqm_bytes)) as zf:
         return {n: zf.read(n) for n in zf.namelist()}
